@@ -195,6 +195,9 @@ func init() {
 			"Oracle: no PANIC/DEADLOCK/LIVELOCK/STARVED verdict in any thread; every call returns; late Add = ErrDone, late Write = (0, ErrDone), late proxies = nil, late mutators leave the getters unchanged, bar not running.",
 		Items: func(tier string) []Item {
 			var items []Item
+			if tier == "thorough" {
+				items = allItems("C02", c02Oracle, c02Late, "incr-write", "incr-cancel", "incr-shutdown", "incr-abortdrop")
+			}
 			for _, sp := range c02Programs(tier) {
 				if sp.Q == 0 {
 					its := specItems("C02", sp, 1, allStrats, []string{"n>q"}, c02Oracle)
